@@ -202,14 +202,21 @@ def spec_for(recs: tuple, delimiter: str) -> SpecConverter:
 
 
 def live_indexes(converter) -> dict:
-    """The five lookup structures of a live converter, as plain dicts."""
-    return {
+    """The lookup structures of a live converter, as plain dicts.
+
+    prefix_map, reverse_prefix_map, trie and pattern_map are documented public attributes; synonym_to_prefix is an
+    undeclared one and is compared only while it exists (a refactoring may drop it without breaking any property).
+    """
+    out = {
         "prefix_map": dict(converter.prefix_map),
-        "synonym_to_prefix": dict(converter.synonym_to_prefix),
         "reverse_prefix_map": dict(converter.reverse_prefix_map),
         "trie": dict(converter.trie.items()),
         "pattern_map": dict(converter.pattern_map),
     }
+    s2p = getattr(converter, "synonym_to_prefix", None)
+    if isinstance(s2p, dict):
+        out["synonym_to_prefix"] = dict(s2p)
+    return out
 
 
 def index_diffs(converter, recs=None) -> list:
@@ -219,6 +226,8 @@ def index_diffs(converter, recs=None) -> list:
     have = live_indexes(converter)
     out = []
     for name in want:
+        if name not in have:
+            continue
         if want[name] != have[name]:
             w, h = want[name], have[name]
             out.append(
